@@ -2,6 +2,7 @@
 package hlib
 
 import (
+	aggkitlog "github.com/agglayer/aggkit/log"
 	"bufio"
 	"encoding/hex"
 	"encoding/json"
@@ -143,4 +144,9 @@ func UnDec(s string) *big.Int {
 		panic("bad decimal " + s)
 	}
 	return v
+}
+
+// QuietLogs silences the repository's logger (fatal only) so that harness output stays readable.
+func QuietLogs() {
+	aggkitlog.Init(aggkitlog.Config{Environment: aggkitlog.EnvironmentDevelopment, Level: "fatal", Outputs: []string{"stderr"}})
 }
